@@ -39,11 +39,61 @@ const (
 )
 
 // WOp: K = "s" set to V | "a" add V | "c" set to V if the value is E | "d" delete
+//
+// "r" (Collection, consumer-driven scenarios only): create-or-update of ID to V whose InterceptBefore callback — it runs
+// between the call's optimistic read and its write lock — performs the operations In (rival writes of any id; K "R" =
+// the paused consumer drains there). The call goes through iff what is stored then equals what it read first.
 type WOp struct {
 	K  string `json:"k"`
 	ID int    `json:"id"`
 	V  int64  `json:"v,omitempty"`
 	E  int64  `json:"e,omitempty"`
+	// WT: WithWriteTime (nil = none): 0 = the zero time.Time, k = a fixed base + k hours (negative: in the past;
+	// successive writes may carry equal or decreasing times)
+	WT *int  `json:"wt,omitempty"`
+	In []WOp `json:"in,omitempty"`
+}
+
+var clockBase = time.Date(2020, 1, 1, 0, 0, 0, 0, time.UTC)
+
+func wtTime(k int) time.Time {
+	if k == 0 {
+		return time.Time{}
+	}
+	return clockBase.Add(time.Duration(k) * time.Hour)
+}
+
+// scriptClock: the resource's Clock when the scenario names one: "back" strictly decreasing, "fixed" constant,
+// "zero" the zero time, "saw" rising and falling ("" = the wall clock)
+type scriptClock struct {
+	kind string
+	n    atomic.Int64
+}
+
+func (c *scriptClock) Now() time.Time {
+	n := c.n.Add(1)
+	switch c.kind {
+	case "back":
+		return clockBase.Add(-time.Duration(n) * time.Second)
+	case "fixed":
+		return clockBase
+	case "zero":
+		return time.Time{}
+	case "saw":
+		return clockBase.Add(time.Duration((n%3)*7-n) * time.Second)
+	}
+	return time.Now()
+}
+
+var clockKinds = []string{"", "back", "fixed", "zero", "saw"}
+
+// genWT: a write time for about a third of the writes, from a small range (so that equal, decreasing and zero times occur)
+func genWT(rng *rand.Rand) *int {
+	if rng.Intn(3) != 0 {
+		return nil
+	}
+	k := rng.Intn(7) - 3
+	return &k
 }
 
 type SubSpec struct {
@@ -62,6 +112,9 @@ type Scenario struct {
 	// monitor only (the Lean model has no listener removal)
 	Churn   bool `json:"churn,omitempty"`
 	MaxGone int  `json:"max_gone,omitempty"` // at most this many subscribers are cancelled (0 = one)
+	// Clock: the resource's clock (see scriptClock); Eq: "e" = the resource is created WithNoDuplicates
+	Clock string `json:"clock,omitempty"`
+	Eq    string `json:"eq,omitempty"`
 }
 
 func b01(b bool) string {
@@ -118,7 +171,15 @@ func (sc Scenario) driverLine(sched []string) string {
 	}
 	var subs []string
 	for _, s := range sc.Subs {
-		subs = append(subs, b01(s.UO)+b01(!s.BP)+"n")
+		tok := b01(s.UO) + b01(!s.BP) + "n"
+		if sc.Eq != "" {
+			eq := sc.Eq
+			if sc.Res == "value" {
+				eq = strings.ToUpper(eq)
+			}
+			tok += "n" + eq
+		}
+		subs = append(subs, tok)
 	}
 	uo := strings.Join(subs, ",")
 	if uo == "" {
@@ -148,7 +209,8 @@ type world struct {
 	res   string
 	coll  *resource.Collection
 	val   *resource.Value
-	maxID int // contents() looks at ids 0..maxID-1 (0 = 9)
+	maxID int    // contents() looks at ids 0..maxID-1 (0 = 9)
+	drain func() // the nested step "R" of an "r" operation: the paused consumer drains
 }
 
 // get is Get of one id (Value: id 0)
@@ -168,15 +230,22 @@ func idName(id int) string { return "i" + strconv.Itoa(id) }
 
 func newWorld(sc Scenario) *world {
 	w := &world{res: sc.Res}
+	var common []resource.Option
+	if sc.Clock != "" {
+		common = append(common, resource.WithClock(&scriptClock{kind: sc.Clock}))
+	}
+	if sc.Eq == "e" {
+		common = append(common, resource.WithNoDuplicates())
+	}
 	if sc.Res == "value" {
-		var opts []resource.Option
+		opts := common
 		if v, ok := sc.Init["0"]; ok {
 			opts = append(opts, resource.WithInitialValue(wrapperspb.Int64(v)))
 		}
 		w.val = resource.NewValue(opts...)
 		return w
 	}
-	var opts []resource.Option
+	opts := common
 	for _, id := range sc.initIDs() {
 		opts = append(opts, resource.WithInitialRecord(idName(id), wrapperspb.Int64(sc.Init[strconv.Itoa(id)])))
 	}
@@ -198,7 +267,22 @@ func msgVal(m proto.Message) (int64, bool) {
 func (w *world) exec(o WOp) error {
 	var opts []resource.WriteOption
 	msg := wrapperspb.Int64(o.V)
+	if o.WT != nil {
+		opts = append(opts, resource.WithWriteTime(wtTime(*o.WT)))
+	}
 	switch o.K {
+	case "r":
+		opts = append(opts, resource.WithCreateIfAbsent(), resource.InterceptBefore(func(_, _ proto.Message) {
+			for _, in := range o.In {
+				if in.K == "R" {
+					if w.drain != nil {
+						w.drain()
+					}
+					continue
+				}
+				w.exec(in)
+			}
+		}))
 	case "s":
 		opts = append(opts, resource.WithCreateIfAbsent())
 	case "a":
@@ -211,7 +295,7 @@ func (w *world) exec(o WOp) error {
 	case "c":
 		opts = append(opts, resource.WithExpectedValue(wrapperspb.Int64(o.E)))
 	case "d":
-		_, err := w.coll.Delete(idName(o.ID))
+		_, err := w.coll.Delete(idName(o.ID), opts...)
 		return err
 	}
 	if w.res == "value" {
@@ -860,6 +944,15 @@ func genScenario(rng *rand.Rand, maxWriters int) Scenario {
 			}
 		}
 	}
+	// write times and clocks that do not follow the commit order: equal, decreasing, zero
+	if rng.Intn(2) == 0 {
+		sc.Clock = clockKinds[rng.Intn(len(clockKinds))]
+		for t := range sc.Writers {
+			for i := range sc.Writers[t] {
+				sc.Writers[t][i].WT = genWT(rng)
+			}
+		}
+	}
 	nsub := 1 + rng.Intn(2)
 	for i := 0; i < nsub; i++ {
 		s := SubSpec{UO: rng.Intn(4) == 0, BP: rng.Intn(2) == 0}
@@ -881,6 +974,15 @@ func genScenario(rng *rand.Rand, maxWriters int) Scenario {
 				sc.Subs[i].BP = true
 			}
 		}
+	}
+	// a resource that emits no duplicates, when every subscriber is backpressured (the harness counts the events a lossy
+	// consumer has taken after each delivery, which a skipped change would leave short)
+	allBP := true
+	for _, s := range sc.Subs {
+		allBP = allBP && s.BP
+	}
+	if allBP && rng.Intn(3) == 0 {
+		sc.Eq = "e"
 	}
 	return sc
 }
@@ -1056,7 +1158,7 @@ func main() {
 	rng := lib.NewRand(f.Seed)
 	ctl := k4.New(ptUpdSend, ptValSend, ptListener, ptCollLis, ptValLis)
 	tie := res.Tie("k4-pubsub-schedules", "K4",
-		"each case = one scenario (Value or Collection, 1-3 writers x 1-2 writes from {set, add, compare-and-set, delete}, 1-2 subscribers with updates-only / backpressure / PullID options) under one schedule of commit, listener-snapshot, per-listener delivery and subscribe steps forced through the yield points *.beforeSend, bus.send.beforeListener, *.onUpdate.beforeListen (a subscribe may be split at beforeListen, where a commit attempt must block on the lock; a commit is also attempted as a lock probe inside the publication of a Delete, scripted for every subscriber option and at random); store, views and (backpressured) event sequences at quiescence compared with run(model) on the same schedule; non-trivial = a subscriber registered before the last commit; distinct = distinct (scenario, schedule)")
+		"each case = one scenario (Value or Collection, 1-3 writers x 1-2 writes from {set, add, compare-and-set, delete}, 1-2 subscribers with updates-only / backpressure / PullID options) under one schedule of commit, listener-snapshot, per-listener delivery and subscribe steps forced through the yield points *.beforeSend, bus.send.beforeListener, *.onUpdate.beforeListen (a subscribe may be split at beforeListen, where a commit attempt must block on the lock; a commit is also attempted as a lock probe inside the publication of a Delete, scripted for every subscriber option and at random); on half of the random scenarios the writes carry WithWriteTime stamps that are equal, decreasing or zero and the resource a scripted clock (running backwards, fixed, zero, rising and falling), and a third of the scenarios whose subscribers are all backpressured run on a resource WithNoDuplicates (the model applies the equivalence check of Collection.Pull / Value.Pull); store, views and (backpressured) event sequences at quiescence compared with run(model) on the same schedule; non-trivial = a subscriber registered before the last commit; distinct = distinct (scenario, schedule)")
 	mon := res.Monitor("converges-hooked",
 		"the property on every hooked execution: fold of each subscriber's received events (seed first) up to the sentinel vs Get/List taken after the writers returned; independent of the model; a stale view is classified by what the schedule did (write committed inside a Delete's publication / overlapping publications / lossy seed duplicate / serial)")
 	var cases []pending
@@ -1078,6 +1180,8 @@ func main() {
 		{Res: "coll", Init: map[string]int64{}, Writers: [][]WOp{{{K: "s", ID: 0, V: 1}, {K: "s", ID: 0, V: 2}}}, Subs: []SubSpec{{BP: true}}},
 		{Res: "coll", Init: map[string]int64{"0": 1}, Writers: [][]WOp{{{K: "d", ID: 0}, {K: "s", ID: 0, V: 3}}}, Subs: []SubSpec{{BP: false}}},
 		{Res: "value", Init: map[string]int64{"0": 1}, Writers: [][]WOp{{{K: "a", ID: 0, V: 1}, {K: "a", ID: 0, V: 1}}}, Subs: []SubSpec{{BP: true}, {UO: true, BP: true}}},
+		// no duplicates: an equal rewrite, a delete and a re-creation with the same body, the subscriber registering anywhere
+		{Res: "coll", Init: map[string]int64{"0": 1}, Writers: [][]WOp{{{K: "s", ID: 0, V: 1}, {K: "d", ID: 0}, {K: "s", ID: 0, V: 1}}}, Subs: []SubSpec{{BP: true}}, Eq: "e"},
 	}
 	nAll := 0
 	for _, sc := range small {
@@ -1116,7 +1220,7 @@ func main() {
 			tie.Fail(err)
 		} else {
 			for i, c := range cases {
-				in := map[string]any{"res": c.sc.Res, "init": c.sc.Init, "writers": c.sc.Writers, "subs": c.sc.Subs, "sched": c.o.Sched}
+				in := map[string]any{"res": c.sc.Res, "init": c.sc.Init, "writers": c.sc.Writers, "subs": c.sc.Subs, "sched": c.o.Sched, "clock": c.sc.Clock, "eq": c.sc.Eq}
 				model := maskModel(answers[i], c.sc)
 				code := codeCanon(c.sc, c.o)
 				tie.Record(lines[i]+strings.Join(c.o.Sched, ","), nontrivial(c.o.Sched), in, model, code)
@@ -1132,7 +1236,7 @@ func main() {
 		}
 	}
 	for _, c := range cases {
-		in := map[string]any{"mode": "k4", "res": c.sc.Res, "init": c.sc.Init, "writers": c.sc.Writers, "subs": c.sc.Subs, "sched": c.o.Sched}
+		in := map[string]any{"mode": "k4", "res": c.sc.Res, "init": c.sc.Init, "writers": c.sc.Writers, "subs": c.sc.Subs, "sched": c.o.Sched, "clock": c.sc.Clock, "eq": c.sc.Eq}
 		mon.Eval(c.sc.driverLine(c.o.Sched)+strings.Join(c.o.Sched, ","), nontrivial(c.o.Sched), nil)
 		if c.o.Concurrent {
 			mon.Count("two-publications-in-flight")
@@ -1174,7 +1278,7 @@ func main() {
 				ctie.Fail(err)
 			} else {
 				for i, c := range runs {
-					in := map[string]any{"churn": true, "max_gone": c.sc.MaxGone, "res": c.sc.Res, "init": c.sc.Init, "writers": c.sc.Writers, "subs": c.sc.Subs, "sched": c.o.Sched}
+					in := map[string]any{"churn": true, "max_gone": c.sc.MaxGone, "res": c.sc.Res, "init": c.sc.Init, "writers": c.sc.Writers, "subs": c.sc.Subs, "sched": c.o.Sched, "clock": c.sc.Clock, "eq": c.sc.Eq}
 					seenX, late := false, false
 					for _, a := range c.o.Sched {
 						if a[0] == 'x' {
@@ -1208,7 +1312,7 @@ func main() {
 			cm.Eval(c.sc.driverLine(nil)+strings.Join(c.o.Sched, ","), cancelled > 0 && lateSub, nil)
 			cm.Count(fmt.Sprintf("cancelled=%d", cancelled))
 			if v := judge(c.sc, c.o, "churn-single-writer"); v != nil {
-				in := map[string]any{"mode": "k4", "churn": true, "max_gone": c.sc.MaxGone, "res": c.sc.Res, "init": c.sc.Init, "writers": c.sc.Writers, "subs": c.sc.Subs, "sched": c.o.Sched}
+				in := map[string]any{"mode": "k4", "churn": true, "max_gone": c.sc.MaxGone, "res": c.sc.Res, "init": c.sc.Init, "writers": c.sc.Writers, "subs": c.sc.Subs, "sched": c.o.Sched, "clock": c.sc.Clock, "eq": c.sc.Eq}
 				cm.Violate(v.sig, v.what, in, v.expected, v.observed)
 			}
 		}
@@ -1307,7 +1411,7 @@ func stress(f lib.Flags, res *lib.Result, rng *rand.Rand) {
 			mon.Count(mode)
 			if v := judge(sc, o, "stress"); v != nil {
 				sig := strings.Replace(v.sig, "/stress/", "/"+mode+"/", 1)
-				in := map[string]any{"mode": "stress", "res": sc.Res, "init": sc.Init, "writers": sc.Writers, "subs": sc.Subs}
+				in := map[string]any{"mode": "stress", "res": sc.Res, "init": sc.Init, "writers": sc.Writers, "subs": sc.Subs, "clock": sc.Clock, "eq": sc.Eq}
 				mon.Violate(sig, v.what, in, v.expected, v.observed)
 				break
 			}
